@@ -15,7 +15,7 @@ Ltac spec_red_in H := lazy -[Rplus Rmult Rminus Ropp Rdiv Rinv IZR sqrt not] in 
 Ltac nonzero :=
   repeat split;
   first [ apply sqrt2_neq0 | apply sqrt3_neq0 | assumption | lra
-        | match goal with H : _ <> 0 |- _ <> 0 => let E := fresh in intro E; apply H; timeout 100 nsatz_tac end ].
+        | match goal with H : _ <> 0 |- _ <> 0 => let E := fresh in intro E; apply H; first [ timeout 100 nsatz_tac | generalize sqrt2_sq; intro; timeout 200 nsatz_tac ] end ].
 (* the single closing tactic: identities of rational functions over Q[sqrt 2, sqrt 3], whatever their shape *)
 Ltac comp_eq :=
   first [ reflexivity
